@@ -49,8 +49,11 @@ enum Kind {
     Pk,
     PkIdx,
     Toast,
+    /// t(id INT PRIMARY KEY, a INT, d INT DEFAULT 7, e TEXT DEFAULT 'x'): the single-row INSERT names only
+    /// (id, a), the two-row INSERT names (id, a, d) — the omitted columns take their defaults
+    Dflt,
 }
-const KINDS: [Kind; 4] = [Kind::NoPk, Kind::Pk, Kind::PkIdx, Kind::Toast];
+const KINDS: [Kind; 5] = [Kind::NoPk, Kind::Pk, Kind::PkIdx, Kind::Toast, Kind::Dflt];
 impl Kind {
     fn name(self) -> &'static str {
         match self {
@@ -58,6 +61,7 @@ impl Kind {
             Kind::Pk => "pk",
             Kind::PkIdx => "pkidx",
             Kind::Toast => "toast",
+            Kind::Dflt => "dflt",
         }
     }
     fn parse(s: &str) -> Option<Kind> {
@@ -71,6 +75,9 @@ impl Kind {
         let mut def = TableDef::new("t").col(id).col(ColumnDef::new("a", Ty::Int));
         if self == Kind::Toast {
             def = def.col(ColumnDef::new("b", Ty::Text));
+        }
+        if self == Kind::Dflt {
+            def = def.col(ColumnDef::new("d", Ty::Int).default(V::Int(7))).col(ColumnDef::new("e", Ty::Text).default(V::Text("x".into())));
         }
         let mut v = vec![Stmt::CreateTable(CreateTable::new(def))];
         if self == Kind::PkIdx {
@@ -161,6 +168,18 @@ impl CStmt {
             r
         };
         let stmt = match op.k {
+            OpK::Ins(k) if kind == Kind::Dflt => {
+                let i = Insert::literals("t", &["id", "a"], vec![row(k, c)]);
+                Stmt::Insert(if op.ret { i.returning_all() } else { i })
+            }
+            OpK::Ins2(k1, k2) if kind == Kind::Dflt => {
+                let with_d = |mut r: Row| -> Row {
+                    r.push(V::Int(9));
+                    r
+                };
+                let i = Insert::literals("t", &["id", "a", "d"], vec![with_d(row(k1, c)), with_d(row(k2, c + 50))]);
+                Stmt::Insert(if op.ret { i.returning_all() } else { i })
+            }
             OpK::Ins(k) => {
                 let i = Insert::literals("t", &[], vec![row(k, c)]);
                 Stmt::Insert(if op.ret { i.returning_all() } else { i })
@@ -276,12 +295,15 @@ enum Plant {
     LostRow,
     /// after every single-row INSERT of key 2 the value of a is one too large
     WrongValue,
+    /// kind dflt: RETURNING of an INSERT shows NULL in the columns the statement omitted (the stored row is right)
+    ReturningNullDefault,
 }
 impl Plant {
     fn from_ctx(ctx: &Ctx) -> Plant {
         match ctx.opt("plant") {
             Some("lost-row") => Plant::LostRow,
             Some("wrong-value") => Plant::WrongValue,
+            Some("returning-null-default") => Plant::ReturningNullDefault,
             Some(o) => vcore::machinery(&format!("unknown plant {o}")),
             None => Plant::None,
         }
@@ -373,7 +395,17 @@ fn step(t: &TestDb, tr: &mut Track, cs: &CStmt, kind: Kind, strict: bool, plant:
     let mut fails = vec![];
     tr.before(cs.op);
     let exp = cs.stmt.apply(&mut tr.st);
-    let got = t.exec(&cs.sql);
+    let mut got = t.exec(&cs.sql);
+    if plant == Plant::ReturningNullDefault && kind == Kind::Dflt {
+        if let (OpK::Ins(_) | OpK::Ins2(..), Res::Affected(_, Some(rows))) = (cs.op.k, &mut got) {
+            let keep = if matches!(cs.op.k, OpK::Ins(_)) { 2 } else { 3 };
+            for r in rows.iter_mut() {
+                for v in r.iter_mut().skip(keep) {
+                    *v = V::Null;
+                }
+            }
+        }
+    }
     match (plant, cs.op.k) {
         (Plant::LostRow, OpK::UpdAll) => {
             let _ = t.exec("DELETE FROM t WHERE id = 3");
@@ -402,6 +434,11 @@ fn step(t: &TestDb, tr: &mut Track, cs: &CStmt, kind: Kind, strict: bool, plant:
         if let Res::Err(e) = &got {
             let c = if e.contains("PRIMARY KEY") { "primary-key" } else { "other" };
             r.count(&format!("impl_err:{c}"), 1);
+        }
+        if kind == Kind::Dflt && got.ok() {
+            if let (OpK::Ins(_) | OpK::Ins2(..), Ok(Outcome::Affected { count, .. })) = (cs.op.k, &exp) {
+                r.count(if cs.op.ret { "default_rows_inserted_with_returning" } else { "default_rows_inserted" }, *count as u64);
+            }
         }
         if kind == Kind::Toast && got.ok() {
             if let (OpK::Ins(_) | OpK::Ins2(..) | OpK::Upd(_), Ok(Outcome::Affected { count, .. })) = (cs.op.k, &exp) {
@@ -1068,12 +1105,15 @@ impl<'a> Explorer<'a> {
     fn explore(&mut self, rep: &mut Reporter) {
         let only_kind = self.ctx.opt("kind").and_then(Kind::parse);
         let only_pass = self.ctx.opt("pass").map(|s| s.to_string());
-        let depth_of = |pass: &Pass| -> usize { self.ctx.opt("depth").and_then(|d| d.parse().ok()).unwrap_or(self.ctx.tier.pick(pass.depth_q, pass.depth_t)) };
+        // kind dflt differs from kind pk only in the INSERT forms: its largest pass (live-mixed) runs one statement shorter
+        let depth_of = |pass: &Pass, kind: Kind| -> usize {
+            self.ctx.opt("depth").and_then(|d| d.parse().ok()).unwrap_or(self.ctx.tier.pick(pass.depth_q, pass.depth_t) - (kind == Kind::Dflt && pass.name == "live-mixed") as usize)
+        };
         let split = self.ctx.tier.pick(2usize, 3usize);
-        let max_depth = PASSES.iter().map(|p| depth_of(p)).max().unwrap_or(1);
+        let max_depth = PASSES.iter().map(|p| depth_of(p, Kind::Pk)).max().unwrap_or(1);
         for (pi, pass) in PASSES.iter().enumerate() {
             for kind in KINDS {
-                let depth = depth_of(pass);
+                let depth = depth_of(pass, kind);
                 rep.bound(&format!("depth:{}:{}", pass.name, kind.name()), json!(depth));
                 rep.bound(&format!("histories:{}:{}", pass.name, kind.name()), json!(count_ext(pass, kind, &Track::new(kind), 0, depth, &mut HashMap::new())));
                 let _ = pi;
@@ -1085,11 +1125,11 @@ impl<'a> Explorer<'a> {
                 if only_pass.as_deref().map(|p| p != pass.name).unwrap_or(false) {
                     continue;
                 }
-                let depth = depth_of(pass);
-                if len > depth {
-                    continue;
-                }
                 for kind in KINDS {
+                    let depth = depth_of(pass, kind);
+                    if len > depth {
+                        continue;
+                    }
                     if only_kind.map(|k| k != kind).unwrap_or(false) {
                         continue;
                     }
@@ -1143,7 +1183,7 @@ impl Check for C05 {
         let mut s = Spec::new(
             "C05",
             "model_checking",
-            "a case is one history: a sequence of statements over the alphabet {INSERT k (k in 1..3, fresh value), two-row INSERT, UPDATE SET a=c WHERE id=k, UPDATE SET a=a+1, DELETE WHERE id=k, DELETE, TRUNCATE; each also with RETURNING *} of every length up to the pass depth, per schema kind (no PK / INT PRIMARY KEY / PK + secondary index / PK + 1.5 KB TEXT), executed from a fresh database in lock-step with the relational model; the oracle (error class, affected count, RETURNING bag, SELECT * bag, COUNT(*), point lookups per key, secondary-index lookups per value) judges the last statement, prefixes having been judged as shorter histories (shortest first). Pass `full`: all 25 operations in every state; passes `live-*`: state-aware alphabet without the constructs of the open findings (plain / all-RETURNING / mixed families). State = executed history, transition = its last statement. Distinct = distinct (schema kind, operation sequence); non-trivial = the last statement is an INSERT or changes the model table.",
+            "a case is one history: a sequence of statements over the alphabet {INSERT k (k in 1..3, fresh value), two-row INSERT, UPDATE SET a=c WHERE id=k, UPDATE SET a=a+1, DELETE WHERE id=k, DELETE, TRUNCATE; each also with RETURNING *} of every length up to the pass depth, per schema kind (no PK / INT PRIMARY KEY / PK + secondary index / PK + 1.5 KB TEXT / PK + DEFAULT columns that the INSERTs omit through a column list), executed from a fresh database in lock-step with the relational model; the oracle (error class, affected count, RETURNING bag, SELECT * bag, COUNT(*), point lookups per key, secondary-index lookups per value) judges the last statement, prefixes having been judged as shorter histories (shortest first). Pass `full`: all 25 operations in every state; passes `live-*`: state-aware alphabet without the constructs of the open findings (plain / all-RETURNING / mixed families). State = executed history, transition = its last statement. Distinct = distinct (schema kind, operation sequence); non-trivial = the last statement is an INSERT or changes the model table.",
         );
         s.assumptions = &[
             "reference semantics = refmodel::sql::rel (cross-checked against SQLite); TRUNCATE's affected count is taken to be the number of rows removed (ExecuteResult::Truncate reports rows_affected)",
@@ -1162,7 +1202,7 @@ impl Check for C05 {
     }
 
     fn run(&self, ctx: &Ctx, rep: &mut Reporter) {
-        for c in ["pk_point_lookups", "secondary_index_lookups", "toast_rows_written", "model_err:pk", "impl_err:primary-key", "model_affected_multi", "model_affected_zero", "explain_secondary_index_plan"] {
+        for c in ["pk_point_lookups", "secondary_index_lookups", "toast_rows_written", "model_err:pk", "impl_err:primary-key", "model_affected_multi", "model_affected_zero", "explain_secondary_index_plan", "default_rows_inserted", "default_rows_inserted_with_returning"] {
             rep.expect_nonzero(c);
         }
         let mut ex = Explorer::new(ctx);
